@@ -27,7 +27,7 @@ func init() {
 			"Histories are enumerated without merging. distinct = (initial root, history); non-trivial = history contains a failing load after a successful one or followed by a successful one",
 		Technique:      "explicit-state exploration of load histories on the real API (no merging) with before/after and failure-deleted differential oracles; exhaustive reader-fault offsets",
 		Assumptions:    []string{"observables are read through the public API (SDL, Types(), GetType, introspection)"},
-		QuickBudget:    100 * time.Second,
+		QuickBudget:    240 * time.Second,
 		ThoroughBudget: 25 * time.Minute,
 	})
 }
@@ -47,6 +47,8 @@ func c14Menu(initial int) []c14Doc {
 		{Name: "V-new-types", SDL: "type N1 { x: Int }\nenum NE { P Q }\n"},
 		{Name: "V-extend-object", SDL: "extend type " + q + " { added: Int }\n"},
 		{Name: "V-directive-def-and-use", SDL: "directive @nd(k: Int = 1) on OBJECT\ntype N2 @nd(k: 2) { y: Int }\n"},
+		// a directive use whose argument is an input object: validation coerces such values (and fills defaults in)
+		{Name: "V-directive-with-input-object-argument", SDL: "directive @cfg(opt: Opt, opts: [Opt]) on OBJECT\ninput Opt { a: Int }\ntype Cfgd @cfg(opt: {a: 1}, opts: [{a: 2}]) { x: Int }\n"},
 	}
 	if initial == 1 {
 		valid = append(valid,
@@ -69,6 +71,13 @@ func c14Menu(initial int) []c14Doc {
 	if initial == 1 {
 		prefixes = append(prefixes, struct{ name, sdl string }{"extend-enum-and-union", "extend enum Color { PUCE }\nextend union AB = Ev\n"})
 	}
+	// an input type used by a directive argument of an EARLIER load gains a defaulted field (only valid after
+	// V-directive-with-input-object-argument; otherwise one more way to fail)
+	prefixes = append(prefixes, struct{ name, sdl string }{"extend-input-used-by-directive-argument", "extend input Opt { extra: Int = 5 }\n"})
+	if initial != 2 {
+		// the implicit schema extended in the failing document, beside a root type arriving with it
+		prefixes = append(prefixes, struct{ name, sdl string }{"new-root-type-and-extend-schema", "type Subscription { ps: Int }\nextend schema @pd2 { }\ndirective @pd2 on SCHEMA\n"})
+	}
 	failures := []struct{ name, sdl string }{
 		{"syntax-error", "type Broken { x: \n"},
 		{"undefined-reference", "type Bad1 { y: Zq7 }\n"},
@@ -79,6 +88,7 @@ func c14Menu(initial int) []c14Doc {
 		{"empty-type", "type Bad2 {}\n"},
 		{"reserved-name", "type __Bad3 { a: Int }\n"},
 		{"undefined-directive", "type Bad4 @zq7 { a: Int }\n"},
+		{"misplaced-directive-on-extend-schema", "extend schema @deprecated { }\n"},
 	}
 	out := append([]c14Doc{}, valid...)
 	// every valid prefix of the failing documents is also a valid load of its own: after the failing document was rolled
@@ -108,7 +118,7 @@ func c14Menu(initial int) []c14Doc {
 	return out
 }
 
-var c14DirNames = []string{"tag", "onschema", "nd", "pd", "any", "inner"}
+var c14DirNames = []string{"tag", "onschema", "nd", "pd", "any", "inner", "cfg", "pd2"}
 
 // c14Observe reads every observable of the root.
 func c14Observe(root *ggql.Root) (string, *core.PanicInfo) {
@@ -125,7 +135,7 @@ func c14Observe(root *ggql.Root) (string, *core.PanicInfo) {
 		// fields, union members, directives, types) for every name the menu's documents introduce
 		for _, rq := range []string{introQuery, "{__typename}", "mutation {__typename}", "{__type(name:\"N1\"){name fields{name}}}",
 			"{px px1 px2 added alt}", "mutation {pm}", "{pick(e: PUCE)}", "{pick(e: PINK)}", "{pick(in: {min: 1, more: 2})}", "{u{... on Ev{__typename}}}", "{a @pd {id}}", "{a @nd {id}}",
-			"{__type(name:\"P1\"){name} p2: __type(name:\"P2\"){name} alt: __type(name:\"Alt\"){name}}", "{a{nick} named{nick}}"} {
+			"{__type(name:\"P1\"){name} p2: __type(name:\"P2\"){name} alt: __type(name:\"Alt\"){name}}", "{a{nick} named{nick}}", "subscription {ps}"} {
 			res := root.ResolveString(rq, "", nil)
 			b.WriteString("REQ: " + string(toJSON(canonIntro(world.Canon(res)))) + "\n")
 		}
